@@ -515,6 +515,19 @@ func ruleCycleDetect(w *World, r *RuleResult) {
 	if n == 0 {
 		d.add(false, "recursion/none", w.Pos(fn.Pos()), "", "the detector does not descend into referenced symbols")
 	}
+	// completeness: after a reference turns out acyclic the search goes on with the next reference
+	cont := false
+	for _, p := range ps {
+		if p.End != "backedge" {
+			continue
+		}
+		for _, e := range p.Events {
+			if e.Kind == "call" && e.Callee == fn {
+				cont = true
+			}
+		}
+	}
+	d.add(cont, "all-references", w.Pos(fn.Pos()), "when a reference is acyclic the loop continues with the next one", "the detector returns after examining the first reference of a symbol: a cycle through a later reference (x equ CORESIZE-y, y equ CORESIZE-x) is missed and the expansion that relies on acyclicity never terminates")
 	d.flush()
 }
 
@@ -599,4 +612,88 @@ func mangledField(w *World, m *machine, field string) bool {
 		}
 	}
 	return false
+}
+
+func init() {
+	register(&Rule{Name: "SIGN.parity", Min: 1, Doc: "a run of unary signs folds to a sign that depends on the parity of its minus signs", Run: ruleSignParity})
+}
+
+// ruleSignParity: the first token-rewriting pass applied by the expression
+// evaluator folds runs of unary + and -.  Whatever variable remembers "this run
+// is negative" must be updated from its own previous value when a '-' is seen
+// (toggle or count); a variable that is merely set cannot encode parity, so
+// `1---1` and `1-1` would differ.
+func ruleSignParity(w *World, r *RuleResult) {
+	aa := Asm(w)
+	if aa.EvalExpr == nil {
+		r.undecided("anchor", "-", "expression evaluator not found")
+		return
+	}
+	// f1 in f2(f1(expr))
+	var f1 *ssa.Function
+	ps, _ := w.Paths(aa.EvalExpr)
+	for _, p := range ps {
+		for _, e := range p.Events {
+			if e.Kind == "call" && e.Callee != nil && e.Callee.Pkg == w.SLib && sigIs(e.Callee, []string{"[]token"}, []string{"[]token"}, false) && len(e.Args) == 1 && stripConv(e.Args[0]).Op == "p" && f1 == nil {
+				f1 = e.Callee
+			}
+		}
+	}
+	if f1 == nil {
+		r.undecided("anchor", w.Pos(aa.EvalExpr.Pos()), "sign-folding pass (first []token -> []token function applied to the expression) not found")
+		return
+	}
+	fps, err := w.Paths(f1)
+	if err != nil {
+		r.undecided("paths", w.Pos(f1.Pos()), err.Error())
+		return
+	}
+	// back edges of the same loop: one taken when the token is '-', the others not
+	type be struct {
+		hdr   int64
+		minus bool
+		args  []*T
+		pos   string
+	}
+	var bes []be
+	for _, p := range fps {
+		if p.End != "backedge" {
+			continue
+		}
+		last := p.Events[len(p.Events)-1]
+		minus := false
+		pos := w.Pos(f1.Pos())
+		for _, cd := range p.Conds {
+			if cd.Atom.Op == "eq" && cd.Atom.A[1].Op == "str" && cd.Atom.A[1].S == "-" && cd.Val {
+				minus = true
+				pos = w.Pos(cd.Pos)
+			}
+		}
+		bes = append(bes, be{last.Res.C, minus, last.Args, pos})
+	}
+	found := false
+	d := newDedup(r)
+	for _, m := range bes {
+		if !m.minus {
+			continue
+		}
+		for _, o := range bes {
+			if o.minus || o.hdr != m.hdr || len(o.args) != len(m.args) {
+				continue
+			}
+			for i := range m.args {
+				if m.args[i].Key() == o.args[i].Key() {
+					continue
+				}
+				// a loop-carried value that is updated differently on '-': the sign state
+				found = true
+				dep := m.args[i].contains(func(x *T) bool { return x.Op == "loopvar" && o.args[i].contains(func(y *T) bool { return y.Key() == x.Key() }) })
+				d.add(dep, f1.Name()+"/sign-state", m.pos, "on '-' the sign state is computed from its previous value (toggle or count)", "on '-' the run's sign state becomes "+m.args[i].Show()+" regardless of its previous value ("+o.args[i].Show()+" otherwise): any run containing a '-' folds to '-', so an even number of negations (1---1, 2*--1, 5*-x with x equ -1) is evaluated as a negation")
+			}
+		}
+	}
+	if !found {
+		d.add(false, f1.Name()+"/sign-state", w.Pos(f1.Pos()), "", "the sign-folding pass has no loop-carried sign state that reacts to '-'")
+	}
+	d.flush()
 }
